@@ -78,7 +78,7 @@ def h16_handle(S, script_len=3, dependency=False):
             used = True
 
 
-PRE = ["callback", "set_result", "set_exception"]
+PRE = ["callback", "set_result", "set_exception", "raising_callback"]
 
 
 def h16_eager(S, pre_len=3):
@@ -91,8 +91,9 @@ def h16_eager(S, pre_len=3):
     from repid.data._key import RoutingKey
 
     n = S.pick("n_pre", pre_len + 1)
-    pre = [PRE[S.pick(f"pre{i}", 3)] for i in range(n)]
+    pre = [PRE[S.pick(f"pre{i}", len(PRE))] for i in range(n)]
     action = CALLS[S.pick("eager", len(CALLS))]
+    guarded = S.flag("actor_catches_Exception_around_the_response")
     S.note("script", pre + [action])
     order = []
     after = []
@@ -119,11 +120,22 @@ def h16_eager(S, pre_len=3):
                     async def cb(idx=idx):
                         order.append(("cb", idx))
                     m.add_callback(cb)
+                elif p == "raising_callback":
+                    async def bad(idx=idx):
+                        order.append(("cb", idx))
+                        raise RuntimeError("callback failed")
+                    m.add_callback(bad)
                 elif p == "set_result":
                     m.set_result({"v": idx})
                 else:
                     m.set_exception(KeyError(f"e{idx}"))
-            await getattr(m, action)()
+            if guarded:
+                try:
+                    await getattr(m, action)()
+                except Exception:  # noqa: BLE001  (a broad handler must not swallow the eager-response signal)
+                    after.append("handler-ran")
+            else:
+                await getattr(m, action)()
             after.append("ran-after-eager-response")
 
         actor = mk_actor(job, converter=BasicConverter, retry_policy=lambda retry_number=1: real_timedelta(seconds=3))
@@ -140,10 +152,10 @@ def h16_eager(S, pre_len=3):
     S.check("reported-as-done", res.reporting_done is True)
     S.check("one-broker-action", out["calls"] == [BROKER_OP[action]], info=str(out["calls"]))
     # expected order: callbacks in registration order, the store where the latest set_* call stood
-    sets = [i for i, p in enumerate(pre) if p != "callback"]
+    sets = [i for i, p in enumerate(pre) if p in ("set_result", "set_exception")]
     expected = []
     for i, p in enumerate(pre):
-        if p == "callback":
+        if p in ("callback", "raising_callback"):
             expected.append(("cb", i))
         elif sets and i == sets[-1]:
             expected.append("STORE")
@@ -177,7 +189,7 @@ HARNESSES = [
             functions=["dependencies/message_dependency.py:MessageDependency.ack"], covers=["accepted", "refused"]),
     Harness(name="H16-eager-order", scenario=h16_eager, workers=16,
             params={"quick": {"pre_len": 3}, "thorough": {"pre_len": 4}},
-            bounds={"actor script": "0..3 (quick) / 0..4 (thorough) calls from {add_callback, set_result, set_exception} followed by one of the six eager responses"},
+            bounds={"actor script": "0..3 (quick) / 0..4 (thorough) calls from {add_callback, add_callback of a raising callback, set_result, set_exception} followed by one of the six eager responses, bare or inside try/except Exception"},
             functions=["_processor.py:_Processor.actor_run", "dependencies/message_dependency.py:MessageDependency.set_result"],
             covers=["result-set"] + ["eager-" + c for c in CALLS]),
 ]
